@@ -1,6 +1,7 @@
 Require Extraction.
 Require Import ExtrOcamlBasic.
 From Coq Require Import NArith ZArith List.
-From CppcmsV Require Import C04.Defs.
+From CppcmsV Require Import C04.Defs C04.DefsX C04.DefsU.
 Definition keep_types : (N * Z * nat) := (0%N, 0%Z, 0%nat).
-Extraction "c04m.ml" keep_types c_validate c_validate_and_filter split parse_part nest.
+Extraction "c04m.ml" keep_types c_validate c_validate_and_filter c_validate_x c_validate_and_filter_x uri_validate visible_scheme
+  split parse_part nest.
